@@ -39,7 +39,7 @@ def slices(tier):
     core = [c for c in spaces.CV_CORE if spaces.coherent(c)]
     o3 = spaces.ordered_syntenies(3)
     o2 = spaces.ordered_syntenies(2)
-    sub_abc = [s for s in o3 if s == tuple(sorted(s))] + [("b", "a"), ("c", "b"), ("c", "a")]
+    sub_abc = spaces.subsequence_syntenies(3) + [("b", "a"), ("c", "b"), ("c", "a")]
     if tier == "quick":
         quick_menu = [core[0], core[2], core[4], core[7]]
         return [
@@ -47,8 +47,12 @@ def slices(tier):
             ("R-root3x2x2", spaces.shape_pairs(3, 2, min_obj=2), o2, quick_menu[:2], True),
             # 4 object leaves in a chain on one species, leaves holding subsequences of abc: three nested ancestors, a
             # family carried down past a node none of whose leaves has it
-            ("O4chainx1x3s", [(sh, None) for sh in spaces.chain_shapes(4)], [s for s in o3 if s == tuple(sorted(s))],
+            ("O4chainx1x3s", [(sh, None) for sh in spaces.chain_shapes(4)], spaces.subsequence_syntenies(3),
              [core[0], spaces.CV_DISTINCT], False),
+            # 5-leaf chains on one species over the syntenies ac / bc / abc / b (an inner gap shared by a whole clade, several
+            # compatible root orders), free duplications
+            ("O5chainx1x{ac,bc,abc,b}", [(sh, None) for sh in spaces.chain_shapes(5)],
+             [("a", "c"), ("b", "c"), ("a", "b", "c"), ("b",)], [(0, 0, 1, 1, 1), core[0]], False),
         ]
     full = core + [c for c in EXTRA_VECTORS if spaces.coherent(c)]
     return [
